@@ -29,13 +29,13 @@ uc = am.unitconvert
 
 chk = Check('C10', 'exploration',
             'full products: (a) uc.model/value_unit/error_unit: dtype{float,int,str,bool} x shape{(),(1,),(3,),(1,1),(1,3),(2,2),(2,3,3)} '
-            'x unit{None,nm,eV/angstrom^3,scaled} x container{ndarray,python-native} x error{no,yes}; (b) Box.model: boxes x length_unit '
+            'x unit{None,nm,eV/angstrom^3,scaled} x container{ndarray,python-native; rank>=2 also Fortran-ordered and transposed-view ndarrays} x error{no,yes}; (b) Box.model: boxes x length_unit '
             'x reader{Box(model=),box.model(model=)}; (c) Atoms.model: natoms{1,3,..} x property-set x unit-style x api{prop_unit dict, '
             'prop_name+unit lists, no arguments}; (d) System.model/System(model=)/dump(system_model)/load(system_model): atoms x '
             'symbols/masses{none,full,partial,..} x box x pbc x pos unit{angstrom,nm,scaled,default} x property-set x unit-style x box_unit '
             'x route{model->dm/json/xml, dump->dm/json/xml/file}; (e) ElasticConstants.model: crystal system x unit x reader; every one '
             'crossed with encoding{DataModelDict,JSON text,XML text} and with the full product (writing configuration x reading '
-            'configuration) of the working-unit menu.  One case = one write + one read.  distinct_nontrivial = cases whose writing and '
+            'configuration) of the core working-unit menu (default, SI, nm-amu-ps, one random draw) plus the extra configurations (nm-J and pm-eV, in which 1 GPa is the number 1e-18 / 6e-9, and the VERIF_SEED random draw) crossed with default and themselves (thorough: with everything); atoms and systems also with all per-atom arrays of rank>=2 handed over in non-C memory layouts.  One case = one write + one read.  distinct_nontrivial = cases whose writing and '
             'reading working units differ or whose text encoding is XML with a collapsed one-element list')
 chk.assumptions = [
     'numericalunits (third party) is trusted for the base units of a configuration; the SI sizes of angstrom, nm, ps, eV, e, amu, GPa '
@@ -92,19 +92,28 @@ def _configs():
     ]
     if THOROUGH:
         out.append(('cm-g-s-e', dict(length='cm', mass='g', time='s', charge='e'), (1e-2, 1e-3, 1.0, ECH)))
+    global NCORE
+    NCORE = len(out)
+    # working units in which a pressure of 1 GPa is a tiny NUMBER (1e-18 and 6.2e-9): anything that compares a stored
+    # quantity against an absolute threshold shows here (the mass unit follows from energy = mass length^2 / time^2)
+    out.append(('nm-J', dict(length='nm', energy='J'), (1e-9, 1.0 / 1e-18, 1.0, 1.0)))
+    out.append(('pm-eV', dict(length='pm', energy='eV'), (1e-12, EV / 1e-24, 1.0, 1.0)))
     # VERIF_SEED appends one pre-vetted extra configuration (a random-unit draw), it never selects cases
     k = 11 + SEED % 8
     out.append(('seedslice%d' % k, k, _seed_scales(k)))
     return out
 
 
+NCORE = None
 CONFIGS = _configs()
-NCORE = len(CONFIGS) - 1
-# full product of the core configurations; the seed slice is crossed with 'default' and itself (quick) or with all (thorough)
+# full product of the core configurations; the extra ones (tiny-pressure units, seed slice) are crossed with 'default' and
+# themselves (quick) or with everything (thorough)
 if THOROUGH:
     CFGPAIRS = list(itertools.product(range(len(CONFIGS)), repeat=2))
 else:
-    CFGPAIRS = list(itertools.product(range(NCORE), repeat=2)) + [(NCORE, 0), (0, NCORE), (NCORE, NCORE)]
+    CFGPAIRS = list(itertools.product(range(NCORE), repeat=2))
+    for _x in range(NCORE, len(CONFIGS)):
+        CFGPAIRS += [(_x, 0), (0, _x), (_x, _x)]
 
 
 def F(cfg, unit):
@@ -250,7 +259,22 @@ STRS = ['Al', 'x y', 'Cu', 'b-c', 'A1', 'fcc', 'Ni', 'q', 'Fe', 'hcp', 'W', 'zz'
 BOOLS = [True, False, True, True, False, False, True, False, True, False, False, True, True, True, False, False, True, False]
 VSHAPES = [(), (1,), (3,), (1, 1), (1, 3), (2, 2), (2, 3, 3)]
 VKINDS = [('f', None), ('f', 'nm'), ('f', 'eV/angstrom^3'), ('f', 'scaled'), ('i', None), ('i', 'nm'), ('U', None), ('b', None)]
-CONTAINERS = ['ndarray', 'native']
+# 'ndarray-F' / 'ndarray-T': the same array held in Fortran order / as a transposed view (rank >= 2 only): what is
+# written must follow the array's INDEX order, whatever its memory order
+CONTAINERS = ['ndarray', 'native', 'ndarray-F', 'ndarray-T']
+
+
+def relayout(a, how):
+    """the same array (same shape, same elements) in another memory layout"""
+    a = np.asarray(a)
+    if a.ndim < 2:
+        return a
+    if how == 'ndarray-F':
+        out = np.asfortranarray(a)
+    else:
+        out = np.ascontiguousarray(a.transpose()).transpose()
+    assert out.shape == a.shape and np.array_equal(out, a)
+    return out
 
 
 def menu_array(kind, shape, offset=0):
@@ -290,8 +314,12 @@ def _value(case):
     if cont == 'native':
         arg = work.tolist()
         earg = ework.tolist() if witherr else None
-    else:
+    elif cont == 'ndarray':
         arg, earg = work, ework
+    else:
+        arg, earg = relayout(work, cont), (relayout(ework, cont) if witherr else None)
+        if arg.ndim >= 2 and arg.size > 1 and not arg.flags['C_CONTIGUOUS']:
+            chk.note('non-C-contiguous-argument')
     kw = {}
     if unit is not None:
         kw['units'] = unit
@@ -518,12 +546,23 @@ def phys_props(aset, pset, bi):
     return out
 
 
-def working_props(phys, cfg):
+def working_props(phys, cfg, layout=None):
+    """layout 'ndarray-F' / 'ndarray-T': every per-atom array of rank >= 2 is handed over in that memory layout"""
     out = {}
     for name, a in phys.items():
         unit = 'angstrom' if name == 'pos' else (PROPS[name][2] if name in PROPS else None)
         out[name] = a * F(cfg, unit) if unit is not None else a.copy()
+        if layout is not None:
+            out[name] = relayout(out[name], layout)
     return out
+
+
+LAYOUTS = [None, 'ndarray-F', 'ndarray-T']
+
+
+def note_layout(obj):
+    if any(obj.view[k].ndim >= 2 and obj.view[k].size > 1 and not obj.view[k].flags['C_CONTIGUOUS'] for k in obj.prop()):
+        chk.note('non-C-contiguous-argument')
 
 
 def storage_units(pset, ustyle, posunit, allow_scaled):
@@ -630,7 +669,8 @@ def _atoms(case):
     fails = []
     phys = phys_props(aset, pset, bi)
     fails += set_config(W)
-    a = am.Atoms(**working_props(phys, W))
+    a = am.Atoms(**working_props(phys, W, LAYOUTS[case.get('layout', 0)]))
+    note_layout(a)
     if case['ustyle'] == 'default':
         pu = storage_units(pset, 'none', None, False)
         kw = {}
@@ -692,8 +732,9 @@ def _system(case):
         s.atoms_prop(key='pos', scale=True)
         s.box_set(vects=vects * fw, origin=origin * fw, scale=True)
     else:
-        s = am.System(atoms=am.Atoms(**working_props(phys, W)), box=am.Box(vects=vects * fw, origin=origin * fw),
-                      pbc=pbc, symbols=symbols, masses=masses)
+        s = am.System(atoms=am.Atoms(**working_props(phys, W, LAYOUTS[case.get('layout', 0)])),
+                      box=am.Box(vects=vects * fw, origin=origin * fw), pbc=pbc, symbols=symbols, masses=masses)
+        note_layout(s.atoms)
     bu = BOX_UNITS[case['box_unit']]
     kw = {} if bu == '<default>' else {'box_unit': bu}
     effbu = 'angstrom' if bu == '<default>' else bu
@@ -834,6 +875,8 @@ def _ecs():
         for j in range(i, 6):
             t[i, j] = t[j, i] = (150.0 + 11.5 * i) if i == j else (FLOATS[k % len(FLOATS)] % 17.0) - 6.0 + 0.5 * k
             k += 1
+    # a small but physical coupling term (0.05 GPa next to ~150 GPa: 3e-4 of the largest constant)
+    t[3, 5] = t[5, 3] = 0.05
     out.append(('triclinic', t))
     out.append(('<default>', t + np.diag([1.5, 0, 0, 2.25, 0, 0])))
     return out
@@ -924,6 +967,8 @@ def gen():
         for ki, (kind, unit) in enumerate(VKINDS):
             for si in range(len(VSHAPES)):
                 for ci in range(len(CONTAINERS)):
+                    if ci >= 2 and len(VSHAPES[si]) < 2:
+                        continue
                     for err in ((0, 1) if kind == 'f' else (0,)):
                         for e in range(ne):
                             yield 'value', {'kind': ki, 'shape': si, 'cont': ci, 'err': err, 'enc': e, 'W': W, 'R': R}
@@ -944,6 +989,11 @@ def gen():
             for pi in range(len(PROPSETS)):
                 for e in range(ne):
                     yield 'atoms', {'atoms': ai, 'props': pi, 'ustyle': 'default', 'enc': e, 'W': W, 'R': R}
+                    if len(ATOMSETS[ai][1]) > 1:
+                        for lay in (1, 2):
+                            yield 'atoms', {'atoms': ai, 'props': pi, 'ustyle': 'default', 'enc': e, 'W': W, 'R': R, 'layout': lay}
+                            yield 'atoms', {'atoms': ai, 'props': pi, 'ustyle': 1, 'posunit': 1, 'api': 0, 'enc': e, 'W': W, 'R': R,
+                                            'layout': lay}
                     for us in range(len(USTYLES)):
                         for pu in range(len(POSUNITS_ATOMS)):
                             for api in range(len(APIS)):
@@ -957,6 +1007,14 @@ def gen():
                             for rt in range(len(ROUTES)):
                                 yield 'system', {'atoms': ai, 'symmass': sm, 'box': bi, 'pbc': pb, 'box_unit': 0, 'props': pi,
                                                  'route': rt, 'ustyle': 'default', 'W': W, 'R': R}
+                                if sm == 1 and pb == 0 and len(ATOMSETS[ai][1]) > 1:
+                                    # ... with the per-atom arrays held in Fortran order / as transposed views; raw and
+                                    # with 'scaled' positions
+                                    for lay in (1, 2):
+                                        yield 'system', {'atoms': ai, 'symmass': sm, 'box': bi, 'pbc': pb, 'box_unit': 0, 'props': pi,
+                                                         'route': rt, 'ustyle': 'default', 'W': W, 'R': R, 'layout': lay}
+                                        yield 'system', {'atoms': ai, 'symmass': sm, 'box': bi, 'pbc': pb, 'box_unit': 0, 'props': pi,
+                                                         'route': rt, 'ustyle': 0, 'posunit': 2, 'api': 0, 'W': W, 'R': R, 'layout': lay}
         # (d) systems, slice 2 (units): atoms x box x box_unit x property set x unit style x pos unit x api x route
         # (thorough: the first 4 atom sets, 3 boxes and 9 routes of the larger thorough menus)
         for ai in range(min(len(ATOMSETS), 4)):
